@@ -57,6 +57,13 @@ def stage_error_map(ctx, f, g, name, tag, depth=0):
             if e.kind == "call" and (e.depth == 0 or e.fn.startswith(b.key + "::{closure")) and e.ret is not None and sym.contains(last[0], lambda x: x == e.ret):
                 if g.is_stage(e.name) or g.validator_role(e.name) is not None:
                     culprit = e
+        inline_role = None
+        if culprit is None and depth == 0:
+            # a clock field parsed in the constructor's own body
+            inl = g.inline_stages(name)
+            for e in p.events:
+                if e.kind == "call" and e.depth == 0 and (e.fn, e.bb) in inl and e.ret is not None and sym.contains(last[0], lambda x: x == e.ret):
+                    inline_role = inl[(e.fn, e.bb)]
         if ev[0] == "enum":
             variant = ev[2]
         elif ev[0] == "errconv" and ev[1][0] == "enum" and b.locals[0]["ty"].endswith(", %s>" % ev[1][1]):
@@ -72,6 +79,8 @@ def stage_error_map(ctx, f, g, name, tag, depth=0):
             for k_, v_ in sub.items():
                 out.setdefault(k_, set()).update(v_)
             continue
+        if culprit is None and inline_role is not None:
+            out.setdefault(("<the %s-move field read in place>" % inline_role, inline_role), set()).add(variant)
         if culprit is not None:
             role = None
             if g.is_stage(culprit.name):
@@ -171,7 +180,7 @@ def run(ctx):
         ps = sym.SymExec(f, b0, inline=lambda n: False if g.validator_role(n) is not None else None).run()
         found = set()
         for p in ps:
-            if p.end == "return" and p.ret[0] == "agg" and p.ret[2] == "Err":
+            if g.path_fails(name, p) and p.conds:
                 e = L.lift(p.conds[-1][0])
                 rr = sym.subterms(e, lambda x: x[0] == "relrank")
                 if e[0] == "bin" and e[1] in ("Eq", "Ne") and rr:
